@@ -6,6 +6,8 @@ import (
 	"encoding/json"
 	"fmt"
 	"math"
+	"sync"
+	"sync/atomic"
 
 	"verif/mc/core"
 	"verif/mc/dyn"
@@ -101,13 +103,14 @@ func ctxNeighbours(sp []uint64) []uint64 {
 }
 
 type ctxRunner struct {
-	c      *core.Ctx
-	prop   string
-	judge  ctxJudge
-	equal  bool // outputs must equal the isolated single-sample result
-	filter func(s, d int) bool
-	evals  int64
-	cap    *failCap
+	equalOnlyTail bool
+	c             *core.Ctx
+	prop          string
+	judge         ctxJudge
+	equal         bool // outputs must equal the isolated single-sample result
+	filter        func(s, d int) bool
+	evals         int64
+	cap           *failCap
 }
 
 // baseline: each special converted alone (1 sample, 1 channel).
@@ -134,7 +137,7 @@ func sameRaw(d int, a, b uint64) bool {
 }
 
 // check judges one output.
-func (r *ctxRunner) check(cs ctxCase, s, d int, in, out uint64, base map[uint64]uint64, where string) {
+func (r *ctxRunner) check(cs ctxCase, s, d int, in, out uint64, base map[uint64]uint64, where string) bool {
 	r.evals++
 	name := dyn.ConvName(s, d) + "/" + dyn.Types[s].Name + "->" + dyn.Types[d].Name
 	var fs []F
@@ -152,6 +155,7 @@ func (r *ctxRunner) check(cs ctxCase, s, d int, in, out uint64, base map[uint64]
 	if len(fs) > 0 && r.cap.ok(fs[0].Key) {
 		r.c.Fail(cs, fs...)
 	}
+	return len(fs) > 0
 }
 
 // runInst runs the neighbours and outlier passes of one instantiation.
@@ -238,6 +242,68 @@ func (r *ctxRunner) runInst(s, d int, only *ctxCase) {
 	}
 }
 
+// giant converts very long buffers of cycling special values; every output must pass the
+// pointwise oracle and equal the isolated result (for properties without an equality clause
+// the comparison is restricted to detecting samples that were not converted at all: the
+// output still holds the garbage the destination was pre-filled with while the isolated
+// result differs from it).
+func (r *ctxRunner) giant(s, d int, lens []int, only *ctxCase) {
+	sp := ctxSpecials(s)
+	baseOut := ctxBaseline(s, d)
+	base := map[uint64]uint64{}
+	for i, v := range sp {
+		base[v] = baseOut[i]
+	}
+	garbage := dyn.Garbage(d).B
+	for _, L := range lens {
+		for _, ch := range []int{1, 3} {
+			if only != nil && (only.Pos != L || only.Ch != ch) {
+				continue
+			}
+			in := make([]uint64, L)
+			for i := range in {
+				in[i] = sp[(i+i/len(sp))%len(sp)]
+			}
+			out := make([]uint64, L)
+			dyn.ConvBlockCh(s, d, L, ch)(in, out)
+			cs := ctxCase{Prop: r.prop, Pass: "giant", S: tn(s), D: tn(d), Ch: ch, Pos: L}
+			bad := 0
+			for i := range in {
+				if r.equalOnlyTail {
+					if b := base[in[i]]; out[i] == garbage && b != garbage {
+						r.evals++
+						if bad < 3 && r.cap.ok("unconverted") {
+							name := dyn.ConvName(s, d) + "/" + tn(s) + "->" + tn(d)
+							r.c.Fail(cs, F{Key: name + "/not-converted", Msg: fmt.Sprintf("%s [buffer of %d samples, %d channel(s)]: position %d still holds the garbage the destination was pre-filled with (input %s)", name, L, ch, i, ctxShow(s, in[i]))})
+						}
+						bad++
+						continue
+					}
+					if r.judge != nil {
+						if kind, msg := r.judge(s, d, in[i], out[i]); kind != "" && bad < 3 {
+							name := dyn.ConvName(s, d) + "/" + tn(s) + "->" + tn(d)
+							if r.cap.ok(name + kind) {
+								r.c.Fail(cs, F{Key: name + "/" + kind, Msg: fmt.Sprintf("%s [buffer of %d samples, %d channel(s), position %d]: %s", name, L, ch, i, msg)})
+							}
+							bad++
+						}
+					}
+					r.evals++
+					continue
+				}
+				if bad < 3 {
+					if r.check(cs, s, d, in[i], out[i], base, "") {
+						bad++
+						r.check(cs, s, d, in[i], out[i], base, fmt.Sprintf("[buffer of %d samples, %d channel(s), position %d]", L, ch, i))
+					}
+				} else {
+					r.evals++
+				}
+			}
+		}
+	}
+}
+
 // adjacency runs A then B and judges B's outputs.
 func (r *ctxRunner) adjacency(a, b [2]int) {
 	spA := ctxSpecials(a[0])
@@ -311,6 +377,34 @@ func ctxRun(c *core.Ctx, prop string, judge ctxJudge, equal bool, filter func(s,
 			r.adjacency(a, b)
 		}
 	}
+	// very long buffers (paths that split or parallelise the work): 2^20+3 samples (thorough: also
+	// 2^22+5) of special values in 1 and 3 channels; these do not depend on history and run on all cores
+	lens := []int{1<<20 + 3}
+	if !c.Quick() {
+		lens = append(lens, 1<<22+7)
+	}
+	if core.Reversed() {
+		lens = nil // independent of history: once is enough
+	}
+	var gevals atomic.Int64
+	seenFn := map[string]bool{}
+	var mu sync.Mutex
+	c.ParallelFor(len(insts), func(i int) {
+		s, d := insts[i][0], insts[i][1]
+		sub := &ctxRunner{c: c, prop: prop, judge: judge, equal: true, cap: r.cap}
+		sub.equalOnlyTail = !equal // properties without the equality clause still need "written at all": judged below
+		ls := lens
+		// quick tier: the 2^22+5 length for one instantiation of each conversion function
+		mu.Lock()
+		if fn := dyn.ConvName(s, d); c.Quick() && len(lens) > 0 && !seenFn[fn] && s != d {
+			seenFn[fn] = true
+			ls = append(append([]int{}, lens...), 1<<22+7)
+		}
+		mu.Unlock()
+		sub.giant(s, d, ls, nil)
+		gevals.Add(sub.evals)
+	})
+	r.evals += gevals.Load()
 	c.Add("context_pass_evaluations", r.evals)
 	c.Eval(r.evals, 0)
 	return digests
@@ -327,6 +421,10 @@ func ctxReplay(c *core.Ctx, raw json.RawMessage, judge ctxJudge, equal bool) []F
 	s, d := typeByName(cs.S), typeByName(cs.D)
 	if cs.Pass == "adjacency" {
 		r.adjacency([2]int{typeByName(cs.S2), typeByName(cs.D2)}, [2]int{s, d})
+	} else if cs.Pass == "giant" {
+		r.equalOnlyTail = !equal
+		r.equal = true
+		r.giant(s, d, []int{cs.Pos}, &cs)
 	} else {
 		r.runInst(s, d, &cs)
 	}
